@@ -11,6 +11,7 @@ class ParsePath:
     params = {"strip_escapes": "bool"}
     assume_fields = {"self._original": "str", "self._separator": "PathSeparators"}
     raises = ["YAMLPathException"]
+    opts = {"returns": "Deque[Tuple[PathSegmentTypes, Any]]"}
     loops = {
         "for char_idx, char in enumerate(yaml_path)": {
             # the only fact the safety of the stack operations needs across iterations:
@@ -25,3 +26,134 @@ class ExpandSplats:
     """Total on str segment ids: returns a segment or raises YAMLPathException."""
     params = {"yaml_path": "str", "segment_id": "str", "segment_type": "PathSegmentTypes"}
     raises = ["YAMLPathException"]
+
+
+FIELDS = {"self._original": "str", "self._separator": "PathSeparators", "self._stringified": "str",
+          "self._escaped": "Deque[Tuple[PathSegmentTypes, Any]]", "self._unescaped": "Deque[Tuple[PathSegmentTypes, Any]]"}
+
+
+@contract(YP + "escaped", props=["C14"])
+class Escaped:
+    """Lazy escaped parse: returns a deque or raises YAMLPathException."""
+    assume_fields = FIELDS
+    raises = ["YAMLPathException"]
+    opts = {"returns": "Deque[Tuple[PathSegmentTypes, Any]]"}
+
+
+@contract(YP + "unescaped", props=["C14"])
+class Unescaped:
+    assume_fields = FIELDS
+    raises = ["YAMLPathException"]
+    opts = {"returns": "Deque[Tuple[PathSegmentTypes, Any]]"}
+
+
+@contract(YP + "separator", props=["C14"])
+class SeparatorGet:
+    """Separator inference is total and returns a PathSeparators member."""
+    assume_fields = FIELDS
+    raises = []
+    opts = {"returns": "PathSeparators"}
+
+
+@contract(YP + "separator.setter", props=["C14"])
+class SeparatorSet:
+    """Forcing a separator re-renders the path: total up to YAMLPathException from the (lazy) parse."""
+    params = {"value": "PathSeparators"}
+    assume_fields = FIELDS
+    raises = ["YAMLPathException"]
+
+
+@contract(YP + "original.setter", props=["C14"])
+class OriginalSet:
+    """Any value is stored as text; never raises for a str."""
+    params = {"value": "str"}
+    assume_fields = FIELDS
+    raises = []
+
+
+@contract(YP + "__str__", props=["C14"])
+class Str:
+    assume_fields = FIELDS
+    raises = ["YAMLPathException"]
+    opts = {"returns": "str"}
+
+
+@contract(YP + "_stringify_yamlpath_segments", props=["C14"])
+class Stringify:
+    """Rendering any parsed segment list is total (the term classes' __str__ have their own contracts)."""
+    params = {"segments": "Deque[Tuple[PathSegmentTypes, Any]]", "separator": "PathSeparators"}
+    raises = []
+    opts = {"returns": "str"}
+
+
+@contract(YP + "ensure_escaped", props=["C14", "C08"])
+class EnsureEscaped:
+    """Total on str arguments, returns a str."""
+    params = {"value": "str", "*": "str"}
+    raises = []
+    opts = {"varargs": "abstract", "returns": "str"}
+
+
+@contract(YP + "escape_path_section", props=["C14", "C08"])
+class EscapePathSection:
+    params = {"section": "str", "pathsep": "PathSeparators"}
+    raises = []
+    opts = {"returns": "str"}
+
+
+@contract("yamlpath.enums.pathseparators.PathSeparators.infer_separator", props=["C14", "C08"])
+class InferSeparator:
+    """AUTO for the empty text, FSLASH iff the text starts with '/', else DOT; never raises."""
+    params = {"yaml_path": "str"}
+    raises = []
+    ensures = ["implies(yaml_path == '', result is PathSeparators.AUTO)",
+               "implies(yaml_path != '' and yaml_path[0] == '/', result is PathSeparators.FSLASH)",
+               "implies(yaml_path != '' and yaml_path[0] != '/', result is PathSeparators.DOT)"]
+
+
+# ---- term classes: constructors establish the field types (K5 at the parser's call sites),
+# ---- __str__ is proved total under exactly those field types (data-structure invariant)
+@contract("yamlpath.path.searchterms.SearchTerms.__init__", props=["C14", "C08"])
+class SearchTermsInit:
+    params = {"inverted": "bool", "method": "PathSearchMethods", "attribute": "str", "term": "str"}
+    raises = []
+
+
+@contract("yamlpath.path.searchterms.SearchTerms.__str__", props=["C14", "C08"])
+class SearchTermsStr:
+    assume_fields = {"self._inverted": "bool", "self._method": "PathSearchMethods", "self._attribute": "str", "self._term": "str"}
+    raises = []
+    opts = {"returns": "str"}
+
+
+@contract("yamlpath.path.searchkeywordterms.SearchKeywordTerms.__init__", props=["C14", "C08"])
+class KeywordTermsInit:
+    params = {"inverted": "bool", "keyword": "PathSearchKeywords", "parameters": "str"}
+    raises = []
+
+
+@contract("yamlpath.path.searchkeywordterms.SearchKeywordTerms.__str__", props=["C14", "C08"])
+class KeywordTermsStr:
+    assume_fields = {"self._inverted": "bool", "self._keyword": "PathSearchKeywords", "self._parameters": "str"}
+    raises = []
+    opts = {"returns": "str"}
+
+
+@contract("yamlpath.path.collectorterms.CollectorTerms.__init__", props=["C14", "C08"])
+class CollectorTermsInit:
+    params = {"expression": "str", "operation": "CollectorOperators"}
+    raises = []
+
+
+@contract("yamlpath.path.collectorterms.CollectorTerms.__str__", props=["C14", "C08"])
+class CollectorTermsStr:
+    assume_fields = {"self._expression": "str", "self._operation": "CollectorOperators"}
+    raises = []
+    opts = {"returns": "str"}
+
+
+@contract(YP + "__init__", props=["C14"])
+class Init:
+    """Constructing a path from any text (or None) never raises: parsing is lazy."""
+    params = {"yaml_path": "Optional[str]", "pathsep": "PathSeparators"}
+    raises = []
